@@ -194,33 +194,48 @@ impl_quad!(-2);
 impl_quad!(5);
 impl_quad!(-7);
 
-impl<const X: char, K> Bridge for Poly<X, K>
-where K: Field + Bridge, for<'x> &'x K: FieldOps<K>, K::O: OEuc {
-    type O = OPoly<K::O>;
-    fn name() -> String { format!("Poly<{}>", K::name()) }
-    fn to_o(&self) -> Self::O {
-        let d = self.iter().map(|(x, _)| x.deg()).max().unwrap_or(0);
-        let mut c = vec![K::O::o0(); d + 1];
-        for (x, r) in self.iter() { c[x.deg()] = c[x.deg()].add(&r.to_o()) }
-        OPoly::new(c)
-    }
-    fn try_from_o(o: &Self::O) -> Option<Self> {
-        let mut terms = vec![];
-        for (i, c) in o.0.iter().enumerate() {
-            if c.is0() { continue }
-            terms.push((Poly::<X, K>::mono(i), K::try_from_o(c)?));
+// Univariate polynomials: implemented per coefficient type (a blanket impl over `K: Field` would
+// collide with the integer-coefficient impl below).
+macro_rules! impl_poly_bridge {
+    ($k:ty) => {
+        impl<const X: char> Bridge for Poly<X, $k> {
+            type O = OPoly<<$k as Bridge>::O>;
+            fn name() -> String { format!("Poly<{}>", <$k as Bridge>::name()) }
+            fn to_o(&self) -> Self::O {
+                let d = self.iter().map(|(x, _)| x.deg()).max().unwrap_or(0);
+                let mut c = vec![<$k as Bridge>::O::o0(); d + 1];
+                for (x, r) in self.iter() { c[x.deg()] = c[x.deg()].add(&r.to_o()) }
+                OPoly::new(c)
+            }
+            fn try_from_o(o: &Self::O) -> Option<Self> {
+                let mut terms = vec![];
+                for (i, c) in o.0.iter().enumerate() {
+                    if c.is0() { continue }
+                    terms.push((Poly::<X, $k>::mono(i), <$k as Bridge>::try_from_o(c)?));
+                }
+                Some(Poly::from_iter(terms))
+            }
+            fn bounded() -> bool { <$k as Bridge>::bounded() }
+            fn gen(rng: &mut Rng, mag: Mag) -> Self::O {
+                let deg = match mag { Mag::Tiny => rng.below(2), Mag::Small => rng.below(4), _ => rng.below(7) };
+                let cm = match mag { Mag::Tiny | Mag::Small => Mag::Tiny, _ => Mag::Small };
+                let mut c: Vec<<$k as Bridge>::O> = (0..=deg).map(|_| if rng.chance(1, 3) { <$k as Bridge>::O::o0() } else { <$k as Bridge>::gen(rng, cm) }).collect();
+                if rng.chance(1, 4) { let l = c.len() - 1; c[l] = <$k as Bridge>::O::o1() }
+                OPoly::new(c)
+            }
         }
-        Some(Poly::from_iter(terms))
-    }
-    fn bounded() -> bool { K::bounded() }
-    fn gen(rng: &mut Rng, mag: Mag) -> Self::O {
-        let deg = match mag { Mag::Tiny => rng.below(2), Mag::Small => rng.below(4), _ => rng.below(7) };
-        let cm = match mag { Mag::Tiny | Mag::Small => Mag::Tiny, _ => Mag::Small };
-        let mut c: Vec<K::O> = (0..=deg).map(|_| if rng.chance(1, 3) { K::O::o0() } else { K::gen(rng, cm) }).collect();
-        if rng.chance(1, 4) { let l = c.len() - 1; c[l] = K::O::o1() }
-        OPoly::new(c)
-    }
+    };
 }
+impl_poly_bridge!(Ratio<i64>);
+impl_poly_bridge!(Ratio<BigInt>);
+impl_poly_bridge!(FF<2>);
+impl_poly_bridge!(FF<3>);
+impl_poly_bridge!(FF<5>);
+impl_poly_bridge!(FF<7>);
+impl_poly_bridge!(FF2);
+// integer coefficients (Z[H], not Euclidean): the model is OPoly<Z>, used with ring operations only
+impl_poly_bridge!(i64);
+impl_poly_bridge!(BigInt);
 
 /// helper bounds used all over the monitors
 pub trait LibRing: Ring + Bridge where for<'x> &'x Self: RingOps<Self> {}
